@@ -8,7 +8,7 @@ import math
 import z3
 
 from pyvc import sym, instrument, vc as vcm, loops
-from pyvc.arr import SymArray, Cat
+from pyvc.arr import SymArray, Cat, check_same
 from pyvc.meshmodel import SymMesh
 from pyvc.models import pintmodel
 from pyvc.models.npmodel import NP, BUILTINS
@@ -204,8 +204,8 @@ def run_init(mutate=None, prefixes=("C",)):
             check("C06.init.fix_psi_iff_terminal_value_set", z3.BoolVal(ops_calls[0]["fix_psi"] is True))
             check("C06.init.psi_init_is_terminal_value_on_terminal_sites_and_one_elsewhere", sym.eq(s.psi_init.at(k_), sym.ite(in_any, v, SC(1, 0))))
         fs_ = ops_calls[0]["fixed_sites"]
-        check("C06.init.pinned_sites_are_exactly_the_terminal_sites", z3.BoolVal(isinstance(fs_, Cat) and len(fs_.blocks) == 2 and fs_.blocks[0] is terms[0].site_indices
-                                                                               and fs_.blocks[1] is terms[1].site_indices))
+        check_same("C06.init.pinned_sites_are_exactly_the_terminal_sites", [(fs_.blocks[0], terms[0].site_indices), (fs_.blocks[1], terms[1].site_indices)]
+                   if isinstance(fs_, Cat) and len(fs_.blocks) == 2 else [], also=isinstance(fs_, Cat) and len(fs_.blocks) == 2)
         check("C10.init.operators_built_and_linked_to_applied_potential", z3.BoolVal(s.operators.log[0] == "build" and s.operators.log[1][0] == "link"
                                                                                      and s.operators.log[1][1] is s.current_A_applied))
         check("C12.init.first_step_is_dt_init", z3.And(sym.eq(s.tentative_dt, o.dt_init), sym.eq(s.dt_max, o.dt_max if adaptive else o.dt_init)))
